@@ -98,6 +98,9 @@ def run_array_cases(cases, res):
             # an element taken out of the wide array is a fixed-point object like any other: bitwise operators, int(), bin()
             e = x[0]; c0 = obs['codes'][0]; mask = (1 << n) - 1
             obs['elem'] = (lib.codes_of(e | 1)[0], lib.codes_of(e ^ 1)[0], lib.codes_of(e & 3)[0], lib.codes_of(~e)[0], int(e) if nf == 0 else None, e.bin())
+            # an indexed write of a Python integer: the buffer still holds plain Python integers (no nested array objects)
+            y = fx.Fxp(val, s, n, nf, raw=raw, **kw); y[0] = 0; y[len(val) - 1] = 1
+            obs['buffer_types'] = sorted(set(type(t).__name__ for t in np.asarray(y.val).reshape(-1).tolist()))
         except Exception as e:
             res.fail(c, 'C18: storing a list of wide integers raised %s' % lib.exc_name(e), got=str(e)[:300]); continue
         scaled = [v if raw else v * (1 << nf) for v in c['cs']]
@@ -115,6 +118,8 @@ def run_array_cases(cases, res):
             res.fail(c, 'C18: overflow/underflow flags of a wide array store are not exact', expected=(so, su), got=obs['st']); continue
         if obs['extp'] is not True:
             res.fail(c, 'C18: the extended-precision indicator is not set for n_word >= 64', expected=True, got=obs['extp']); continue
+        if obs['buffer_types'] != ['int']:
+            res.fail(c, 'C18: after an indexed write the value buffer of a wide object does not hold plain Python integers', expected=['int'], got=obs['buffer_types']); continue
         c0 = want[0]; mask = (1 << n) - 1; u = c0 & mask
         def code(p): return p - (1 << n) if (s and p >= (1 << (n - 1))) else p
         want_e = (code(u | 1), code(u ^ 1), code(u & 3), code(mask - u), c0 if nf == 0 else None, c11.py_bin(n, c0))
